@@ -30,6 +30,7 @@ def run(tier):
                      "weights integer or dyadic so every expected value is exact",
                      "large instances are a fixed menu enumerated completely, not a sample; VERIF_SEED only rotates the order"]
     b = builds()
+    c.builds_done()
     real, shim = b["meta_real"], b["meta_shim"]
     plan = [(real, "reference cross-validation G(0..5) x A2", [["--mode", "xref", "--n", n, "--alpha", "A2"] for n in range(0, 6)]),
             (real, "small G(0..4) x A2, all transformations, 6 variants", [["--mode", "small", "--n", n, "--alpha", "A2"] for n in range(0, 5)]),
